@@ -13,7 +13,7 @@ import (
 )
 
 func init() {
-	props["C08"] = &propDef{run: runC08, explanation: "Partial: end-to-end acceptance of client-built requests and 'yields the requested document' are behavioural and NOT decided. Decided statically (necessary conditions): (X1) each builder signs / serialises values of exactly the named types the parser decodes into, so member names agree by construction; (X2) the client's signer-header whitelist equals the parser's ({alg,kid}); (P1) in every builder the delta hash is CalculateModelMultihash of the very delta object placed in the request, with the caller's multihash code, and that value is what is signed / put in the suffix data; all four builders return the canonical encoding of the request object; (G1) builders refuse unacceptable inputs — create: document xor patches, valid multihash code, both commitments computed with that code, distinct commitments; update/recover: key present and valid, key-reuse check against the next commitment, signer checks; deactivate: signer checks; (P2) GetAnchoredOperation rebuilds the per-type request from the parsed model field by field and returns its canonical encoding with type, suffix and anchor origin; (P3) the Sidetree client derives the reveal value from the signer's public key with the code of the operation commitment, uses the signer's key as update/recovery key, derives next commitments from the next keys with the configured algorithm and passes the signer through; (O1) createUpdatePatches never emits a remove-* patch after an add-* patch. (E1) the request-document builders (PopulateRaw*, Doc.JSONBytes) do not write through their inputs. (K3) member names of all request and signed-data models are the wire format's; the did suffix is the text after the last ':'; the raw key carries exactly one key representation on every accepting path; builder options are found by type."}
+	props["C08"] = &propDef{run: runC08, explanation: "Partial: end-to-end acceptance of client-built requests and 'yields the requested document' are behavioural and NOT decided. Decided statically (necessary conditions): (X1) each builder signs / serialises values of exactly the named types the parser decodes into, so member names agree by construction; (X2) the client's signer-header whitelist equals the parser's ({alg,kid}); (P1) in every builder the delta hash is CalculateModelMultihash of the very delta object placed in the request, with the caller's multihash code, and that value is what is signed / put in the suffix data; all four builders return the canonical encoding of the request object; (G1) builders refuse unacceptable inputs — create: document xor patches, valid multihash code, both commitments computed with that code, distinct commitments; update/recover: key present and valid, key-reuse check against the next commitment, signer checks; deactivate: signer checks; (P2) GetAnchoredOperation rebuilds the per-type request from the parsed model field by field and returns its canonical encoding with type, suffix and anchor origin; (P3) the Sidetree client derives the reveal value from the signer's public key with the code of the operation commitment, uses the signer's key as update/recovery key, derives next commitments from the next keys with the configured algorithm and passes the signer through; (O1) createUpdatePatches never emits a remove-* patch after an add-* patch. (E1) the request-document builders (PopulateRaw*, Doc.JSONBytes) do not write through their inputs. (K3) member names of all request and signed-data models are the wire format's; the did suffix is the text after the last ':'; the raw key carries exactly one key representation on every accepting path; builder options are found by type. An unnamed anchor origin stays absent; every accepting exit of Doc.JSONBytes depends on every field of Doc; each service member is copied under conditions on itself only."}
 }
 
 func (c *Ctx) unmarshalTargetType(f *ssa.Function) types.Type {
@@ -185,6 +185,12 @@ func runC08(c *Ctx) {
 		}
 		// ---- X1 request type
 		pt := c.unmarshalTargetType(parserReq[typ])
+		if parserReq[typ] == nil {
+			// no decoding helper: the per-type parse function decodes the request itself
+			if sr := c.requestSchema(c.parseFuncs()[typ], "Request"); sr != nil {
+				pt = sr.typ
+			}
+		}
 		c.Check("C08.X1", typ+":request-type", reqT != nil && pt != nil && types.Identical(reqT, pt), b.Pos(), fmt.Sprintf("builder serialises %v, parser decodes into %v", reqT, pt))
 		reqAlloc, _ := reqVal.(*ssa.Alloc)
 		var rf map[string][]string
@@ -317,7 +323,8 @@ func runC08(c *Ctx) {
 				if isM, _ := c.isMembershipFn(cl.Call.StaticCallee()); !isM {
 					return
 				}
-				if sl, isSl := cl.Call.Args[0].(*ssa.Slice); isSl {
+				mList, _ := memberArgs(cl)
+				if sl, isSl := mList.(*ssa.Slice); isSl {
 					if al, isAl := sl.X.(*ssa.Alloc); isAl {
 						keys = constStringsOfAlloc(c, al)
 					}
@@ -460,6 +467,11 @@ func runC08(c *Ctx) {
 		seen := reach(swF.Blocks[0], cut)
 		for b := range seen {
 			if r, isR := b.Instrs[len(b.Instrs)-1].(*ssa.Return); isR && maySucceed(r) {
+				// a helper that reports refusal through a comma-ok result: (…, false); the caller's handling of it is
+				// decided below on the helper call
+				if n := len(r.Results); swCall != nil && n > 0 && isBoolType(r.Results[n-1].Type()) && c.Path(r.Results[n-1], nil) == "false" {
+					continue
+				}
 				okDef = false
 			}
 		}
@@ -489,7 +501,7 @@ func runC08(c *Ctx) {
 		if k < 0 {
 			return "", nil
 		}
-		opts := fmt.Sprintf("$%d", k)
+		opts := c.Path(f.Params[k], nil)
 		mh := map[string]bool{opts + ".MultiHashAlgorithm": true}
 		for j, p := range f.Params {
 			if !isIntType(p.Type()) {
@@ -517,7 +529,7 @@ func runC08(c *Ctx) {
 				}
 			}
 			if n > 0 && all {
-				mh[fmt.Sprintf("$%d", j)] = true
+				mh[c.Path(f.Params[j], nil)] = true
 			}
 		}
 		return opts, mh
@@ -685,7 +697,41 @@ func runC08(c *Ctx) {
 	} else {
 		c.Unresolved("C08.P3", "doc.populateRawPublicKey")
 	}
-	c.Min("C08.P3", 9+3)
+	// an anchor origin the caller did not name stays absent: the request-info field is an interface (omitted from the
+	// signed data only when nil), the option is a string — stored unconditionally, "" becomes the anchor origin ""
+	for _, f := range c.Funcs {
+		if pkgPathOf(f) != modPkg+pST {
+			continue
+		}
+		for _, infoT := range []string{"CreateRequestInfo", "RecoverRequestInfo"} {
+			it := c.NamedType(pClient, infoT)
+			if it == nil {
+				continue
+			}
+			for _, a := range allocsOf(f, it) {
+				for _, fs := range storesInto(a) {
+					if fs.Field != "AnchorOrigin" {
+						continue
+					}
+					mi, isMI := fs.Val.(*ssa.MakeInterface)
+					if !isMI || !isStringType(mi.X.Type()) {
+						continue
+					}
+					src := c.Path(mi.X, nil)
+					guarded := false
+					for _, cnd := range c.condsOf(fs.Instr.Block()) {
+						if nonEmptyCond(cnd, src) {
+							guarded = true
+						}
+					}
+					c.Check("C08.P3", strings.TrimSuffix(strings.ToLower(infoT[:1])+infoT[1:], "RequestInfo")+":anchor-origin-absent-stays-absent", guarded, fs.Instr.Pos(), fmt.Sprintf("%s.AnchorOrigin (an interface, omitted only when nil) receives the string %s only when it is non-empty", infoT, src))
+				}
+			}
+		}
+	}
+	c.docBytesRule("C08.P3")
+	c.rawServiceRule("C08.P3")
+	c.Min("C08.P3", 9+3+2+3+7)
 
 	// ---- O1 remove-before-add
 	cup := c.Fn(pST, "createUpdatePatches")
@@ -955,4 +1001,89 @@ func loadedFromElement(v ssa.Value, ia *ssa.IndexAddr) bool {
 		}
 	}
 	return false
+}
+
+// nonEmptyCond: the canonical branch condition cnd says that the string with path p is non-empty.
+func nonEmptyCond(cnd, p string) bool {
+	for _, w := range []string{
+		"(" + p + ` != "")=true`, "(" + p + ` == "")=false`, `("" != ` + p + ")=true", `("" == ` + p + ")=false",
+		"(len(" + p + ") > 0)=true", "(len(" + p + ") != 0)=true", "(len(" + p + ") == 0)=false", "(0 < len(" + p + "))=true", "(len(" + p + ") >= 1)=true", "(len(" + p + ") <= 0)=false", "(len(" + p + ") < 1)=false",
+	} {
+		if cnd == w {
+			return true
+		}
+	}
+	return false
+}
+
+// rawServiceRule: each member of the service model reaches the raw service under a condition on that member only —
+// a member nested under another member's presence test is dropped from documents that have the one without the other.
+func (c *Ctx) rawServiceRule(rule string) {
+	const pDoc = "vdr/sidetreelongform/sidetree/doc"
+	f := c.Fn(pDoc, "PopulateRawServices")
+	if f == nil {
+		c.Unresolved(rule, "doc.PopulateRawServices")
+		return
+	}
+	c.Analysed(f)
+	fieldRe := regexp.MustCompile(`(?:\[ι\]|\$\d+)\.([A-Z][A-Za-z]+)`)
+	loopControl := regexp.MustCompile(`^\((len\(.*\) <= ι|ι < len\(.*\))\)=true$`)
+	n := 0
+	hosts := append([]*ssa.Function{f}, c.helpersOf(f, 1)...)
+	for _, h := range hosts {
+		forEachInstr(h, func(in ssa.Instruction) {
+			mu, ok := in.(*ssa.MapUpdate)
+			if !ok {
+				return
+			}
+			if _, isK := mu.Key.(*ssa.Const); !isK {
+				return
+			}
+			m := fieldRe.FindStringSubmatch(c.Path(mu.Value, nil))
+			if m == nil {
+				return
+			}
+			n++
+			var foreign []string
+			for _, cnd := range c.condsOf(mu.Block()) {
+				if loopControl.MatchString(cnd) || strings.HasPrefix(cnd, "next(range(") || strings.Contains(cnd, "]."+m[1]) || regexp.MustCompile(`\$\d+\.`+m[1]+`\b`).MatchString(cnd) || strings.Contains(cnd, "#1") || strings.Contains(cnd, " nil)=") && strings.Contains(cnd, "#") {
+					continue
+				}
+				foreign = append(foreign, cnd)
+			}
+			c.Check(rule, "raw-service:"+unquote(c.Path(mu.Key, nil))+":own-condition", len(foreign) == 0, mu.Pos(), fmt.Sprintf("service member %s is copied under conditions on %s only (foreign conditions: %v)", c.Path(mu.Key, nil), m[1], foreign))
+		})
+	}
+	c.Check(rule, "raw-service:members", n >= 6, f.Pos(), fmt.Sprintf("%d member copies found in PopulateRawServices", n))
+}
+
+// docBytesRule: the document handed to the create / recover request carries every member of Doc: each accepting exit of
+// JSONBytes returns bytes that depend on each field.
+func (c *Ctx) docBytesRule(rule string) {
+	const pST = "vdr/sidetreelongform/sidetree"
+	// the document handed to the create / recover request carries every member of Doc: each accepting exit of JSONBytes
+	// returns bytes that depend on each field
+	if jb := c.Method(pST+"/doc", "Doc", "JSONBytes"); jb != nil {
+		c.Analysed(jb)
+		if dt := c.NamedType(pST+"/doc", "Doc"); dt != nil {
+			for i := 0; i < numFields(dt); i++ {
+				fld := fieldName(dt, i)
+				ok := len(successReturns(jb)) > 0
+				for _, r := range successReturns(jb) {
+					dep := false
+					for v := range backSlice(returnedValue(r, 0)) {
+						if fa, isFA := v.(*ssa.FieldAddr); isFA && c.Path(fa, nil) == "$0."+fld {
+							dep = true
+						}
+					}
+					if !dep {
+						ok = false
+					}
+				}
+				c.Check(rule, "Doc.JSONBytes:member:"+fld, ok, jb.Pos(), "every accepting exit of JSONBytes returns bytes computed from Doc."+fld)
+			}
+		}
+	} else {
+		c.Unresolved(rule, "(*doc.Doc).JSONBytes")
+	}
 }
